@@ -847,7 +847,7 @@ def table_replay(ctx, gens, sample=None):
         index = {}
         for r in rows:
             hk = json.dumps(r["h"], sort_keys=True)
-            index[(r["strat"], r["reject"], hk, r["start"]["d"], r["start"]["w"], tuple(r["script"]))] = r
+            index.setdefault((r["strat"], r["reject"], hk, r["start"]["d"], r["start"]["w"]), []).append(r)
         todo = rows
         if sample is not None and len(rows) > sample:
             todo = rng.sample(rows, sample)
@@ -895,9 +895,8 @@ def table_replay(ctx, gens, sample=None):
                     break
                 # next call: the row for the state the optimizer is in now
                 dd, _r, ww = sess.strat_state()
-                cands = [v for k, v in index.items()
-                         if k[0] == r["strat"] and k[1] == r["reject"] and k[2] == json.dumps(h, sort_keys=True)
-                         and k[3] == dd and k[4] == ww] if ci + 1 < ncalls else []
+                cands = index.get((r["strat"], r["reject"], json.dumps(h, sort_keys=True), dd, ww), []) \
+                    if ci + 1 < ncalls else []
                 if not cands:
                     break
                 cur = rng.choice(cands)
